@@ -12,6 +12,10 @@ static int run_case(struct vf_rng *r, long idx)
 {
 	if (vf_mode && 0 == strcmp(vf_mode, "pfc"))
 		return c15_pfc_case(r, idx);
+	if (vf_mode && 0 == strcmp(vf_mode, "idl-long"))
+		return c15_idl_long_case(r, idx);
+	if (vf_mode && 0 == strcmp(vf_mode, "pfc-long"))
+		return c15_pfc_long_case(r, idx);
 	return c15_idl_case(r, idx);
 }
 
